@@ -594,11 +594,50 @@ def _ple_content(g, m, n):
 RUSSIAN_ODD_WINDOW = True
 
 
+def _echelon_basis(g, r, ncols):
+    """r rows in echelon form with spread random pivots: rank exactly r"""
+    piv = sorted(g.rng.sample(range(ncols), r))
+    full = (1 << ncols) - 1
+    return [((g.rng.getrandbits(ncols) >> (p + 1) << (p + 1)) | (1 << p)) & full for p in piv]
+
+
+def _compress_case(g):
+    """inputs for the whole-word move loops of _mzd_compress_l (mzp.c:294): ncols = 64 w, the split of ple.c at
+    n1 = 64 ((w+1)/2); the left n1 columns have rank r1 < n1 with r1 in {0, 64, 100, n1-1} (r1 % 64 == 0 included), the
+    Schur complement of the right part has rank r2 in {64, 128, 129, ...} >= one word, rows below r1 + r2 exist, and
+    width * nrows exceeds the PLE cut-off REC_WORDS so that the block recursion is entered"""
+    r = g.rng
+    w = r.choice([3, 4, 5, 10])
+    n = 64 * w
+    n1 = 64 * ((w + 1) // 2)
+    nR = n - n1
+    r1 = r.choice([x for x in (0, 64, 100, n1 - 1) if x < n1 and (x <= 64 or n1 > x)])
+    r2 = min(nR, r.choice([64, 128, 129, min(192, nR)]))
+    m = max(r1 + r2 + 20, REC_WORDS // w + 1) + r.choice([0, 1, 7, r.randint(0, 60)])
+    B1 = _echelon_basis(g, r1, n1)
+    B2 = _echelon_basis(g, r2, nR)
+    basis = [b | (r.getrandbits(nR) << n1) for b in B1] + [b << n1 for b in B2]
+    nb = len(basis)
+    rows = []
+    for i in range(m):
+        c = r.getrandbits(nb) if nb else 0
+        rows.append(c)
+    # a few dependent rows on top and in the middle
+    if m > 8 and nb:
+        rows[2] = rows[0] ^ rows[1]
+        rows[m // 2] = rows[m // 2 - 1]
+        rows[m // 2 + 1] = 0
+    return m, n, _gen.mat_mul_rows(rows, basis), "compress/w%d/r1=%d/r2=%d" % (w, r1, r2)
+
+
 def _ple(name, has_k):
     def b(g, W, sz):
         k = g.rng.choice([0, 0, 2, 3, 4, 5, 6, 7, 8]) if has_k else None
-        m, n = _ple_shape(g, sz, k)
-        ra, ka = _ple_content(g, m, n)
+        if REC_BIAS and name in ("ple", "pluq") and g.rng.random() < 0.35:
+            m, n, ra, ka = _compress_case(g)
+        else:
+            m, n = _ple_shape(g, sz, k)
+            ra, ka = _ple_content(g, m, n)
         w = W("A")
         if w is not None and has_k and not RUSSIAN_ODD_WINDOW:
             w = dict(w)
